@@ -264,8 +264,12 @@ def checkpoints(ex, speculative=False):
     deleted_declared = set()
     in_stop_all = False
     n_del = n_res = n_copy = 0
+    npoll = 0
+    deleted_at_poll = {}
     for e in ex.log:
         k = e[0]
+        if k == "poll":
+            npoll = e[1]
         if k == "schedule":
             state[e[1]] = "running"
         elif k == "pause":
@@ -285,6 +289,8 @@ def checkpoints(ex, speculative=False):
         elif k == "delete":
             t, had = e[1], e[2]
             n_del += 1
+            if had:
+                deleted_at_poll[t] = npoll
             if in_stop_all or state.get(t) == "stopped":
                 continue
             if t in declared:
@@ -308,8 +314,10 @@ def checkpoints(ex, speculative=False):
             src, tgt, has, deleted = e[1], e[2], e[3], e[4]
             n_copy += 1
             if deleted:
-                v.append((f"checkpoint:copy-after-delete:src-{state.get(src)}",
-                          f"trial {tgt} warm-started from the checkpoint of trial {src} which had been deleted (source is {state.get(src)})"))
+                when = "deleted-in-the-same-poll" if deleted_at_poll.get(src) == npoll else "deleted-in-an-earlier-poll"
+                v.append((f"checkpoint:copy-after-delete:src-{state.get(src)}:{when}",
+                          f"trial {tgt} warm-started (poll {npoll}) from the checkpoint of trial {src} which had been deleted in poll "
+                          f"{deleted_at_poll.get(src)} (source is {state.get(src)})"))
     ex.ckpt_counts = (n_del, n_res, n_copy)
     out, seen = [], set()
     for key, msg in v:
@@ -369,6 +377,11 @@ def termination(ex, cfg):
         k = e[0]
         if k == "loop_start":
             loops = e[1]
+            snap0 = e[2] if len(e) > 2 else None
+            if first_hold is None and snap0 is not None and crit_holds(stop, snap0, max_failures):
+                # the criterion already held when the previous iteration ended (even if that iteration never
+                # reached its end-of-loop callbacks)
+                first_hold = loops - 1
             if first_hold is not None and not wait:
                 v.append(("termination:loop-continues-after-criterion", f"criterion held at the end of iteration {first_hold}, "
                                                                         f"iteration {loops} started nevertheless"))
